@@ -254,6 +254,7 @@ func (g *vC12Gen) globalField() (vC12KV, bool) {
 		{"webrtcHandshakeTimeout", dur()}, {"webrtcIPsFromInterfaces", b()}, {"metricsAllowOrigins", `["*"]`},
 		{"authHTTPExclude", `[{"action":"api"}]`}, {"authJWTClaimKey", `"perm"`}, {"sysLogPrefix", `"mtx"`},
 		{"rtspServerKey", `"other.key"`}, {"multicastIPRange", vPick(r, []string{`"224.1.0.0/16"`, `"nonsense"`})},
+		{"authInternalUsers", vC12UsersEdit(r)}, {"authInternalUsers", vC12UsersEdit(r)},
 		{"readTimeout", `null`}, {"hlsMuxerCloseAfter", dur()}, {"srtAddress", `":8891"`}, {"playbackAllowOrigins", `["*"]`},
 	})
 	if g.http && (kv.k == "readTimeout" || kv.k == "writeTimeout" || kv.k == "logLevel") && r.Chance(2, 3) {
@@ -295,6 +296,18 @@ func (g *vC12Gen) body(global bool) (string, bool) {
 }
 
 // ---- one edit --------------------------------------------------------------------------------------------
+
+// a new list of internal users (always with the password-less local user the driver's own requests are admitted as)
+func vC12UsersEdit(r *vRand) string {
+	api := `{"user":"any","pass":"","ips":["127.0.0.1","::1"],"permissions":[{"action":"api"},{"action":"metrics"},{"action":"pprof"}]}`
+	return vPick(r, []string{
+		vC12UsersJSON,
+		`[` + api + `,{"user":"admin","pass":"otherpass","ips":[],"permissions":[{"action":"publish"}]}]`,
+		`[` + api + `,{"user":"any","pass":"","ips":[],"permissions":[{"action":"read"},{"action":"publish"}]}]`,
+		`[` + api + `,{"user":"op","pass":"sha256:j1tsRqDEw9xvq/D7/9tMx6Jh/jMhk3UfjwIB2f1zgMo=","ips":[],"permissions":[{"action":"read","path":"~^live/"}]},` +
+			`{"user":"cam","pass":"cam$pass","ips":["10.0.0.0/8"],"permissions":[{"action":"publish","path":"cam1"}]}]`,
+	})
+}
 
 type vC12Op struct {
 	kind string // global | defaults | add | patch | replace | delete
@@ -361,7 +374,7 @@ func (vC12NopLogger) Log(logger.Level, string, ...any) {}
 
 // the settings every generated file keeps (those of vC12Start), as JSON members (JSON is YAML)
 func (tg *vC12Target) fileBase() []string {
-	return []string{`"logLevel":"error"`, fmt.Sprintf(`"api":%v`, tg.http), fmt.Sprintf(`"apiAddress":"127.0.0.1:%d"`, tg.port),
+	return []string{`"logLevel":"error"`, `"api":true`, fmt.Sprintf(`"apiAddress":"127.0.0.1:%d"`, tg.port),
 		`"metrics":false`, `"pprof":false`, `"playback":false`, `"rtsp":false`, `"rtmp":false`, `"hls":false`,
 		`"webrtc":false`, `"srt":false`, `"moq":false`}
 }
@@ -579,43 +592,74 @@ func (tg *vC12Target) overHTTP(op vC12Op) (string, string, error) {
 	return "", "", fmt.Errorf("unexpected status %d: %s", st, b)
 }
 
-// read the configuration back: over HTTP where the API exposes it (global, path defaults, effective paths),
-// from the snapshot otherwise (the optional paths are not exposed by any GET)
+// the RUNNING configuration, read in-package with its credentials: the object Core.APIConfigSnapshot() hands to the API
+// handlers (p.apiConf; p.conf is the same object once the reload that follows an accepted edit is done)
 func (tg *vC12Target) read() (vC12View, error) {
-	v := vC12ReadSnapshot(tg.p.APIConfigSnapshot())
-	if !tg.http {
-		return v, nil
+	return vC12ReadSnapshot(tg.p.APIConfigSnapshot()), nil
+}
+
+// wait for the reload that follows an accepted edit (a request that reaches an API server which that reload is
+// shutting down is only served once the shutdown has timed out)
+func (tg *vC12Target) settle() {
+	for i := 0; i < 3000 && tg.p.conf.Load() != tg.p.APIConfigSnapshot(); i++ {
+		time.Sleep(5 * time.Millisecond)
 	}
-	st, b, err := tg.req(http.MethodGet, "/v3/config/global/get", "")
-	if err != nil || st != 200 {
-		return v, fmt.Errorf("GET global: %d %v", st, err)
+}
+
+// one GET through the real handler; the answer is shipped as its differences to the running configuration [state]
+// (read in-package just before)
+func (tg *vC12Target) get(in *vC12Intern, ep string, name string, state vC12View) (string, string, map[string]any, error) {
+	diffTerm := func(base, got vC12Fields) (string, map[string]any) {
+		ch, rem := vC12Diff(base, got)
+		return cqPair(in.fmap(ch), in.keys(rem)), map[string]any{"differsFromRunning": ch, "missing": rem}
 	}
-	v.g = vC12FieldsOfJSON(b)
-	st, b, err = tg.req(http.MethodGet, "/v3/config/pathdefaults/get", "")
-	if err != nil || st != 200 {
-		return v, fmt.Errorf("GET pathdefaults: %d %v", st, err)
+	switch ep {
+	case "global", "defaults":
+		url, base, et := "/v3/config/global/get", state.g, "EGlobal"
+		if ep == "defaults" {
+			url, base, et = "/v3/config/pathdefaults/get", state.d, "EDefaults"
+		}
+		st, b, err := tg.req(http.MethodGet, url, "")
+		if err != nil || st != 200 {
+			return "", "", nil, fmt.Errorf("GET %s: %d %v", url, st, err)
+		}
+		ch, rem := vC12Diff(base, vC12FieldsOfJSON(b))
+		return et, cqApp("RDiff", in.fmap(ch), in.keys(rem)), map[string]any{"differsFromRunning": ch, "missing": rem}, nil
+	case "list":
+		st, b, err := tg.req(http.MethodGet, "/v3/config/paths/list?itemsPerPage=1000", "")
+		if err != nil || st != 200 {
+			return "", "", nil, fmt.Errorf("GET paths/list: %d %v", st, err)
+		}
+		var list struct {
+			Items []json.RawMessage `json:"items"`
+		}
+		if err = json.Unmarshal(b, &list); err != nil {
+			return "", "", nil, err
+		}
+		var items []string
+		d := map[string]any{}
+		for _, it := range list.Items {
+			f := vC12FieldsOfJSON(it)
+			var n string
+			json.Unmarshal([]byte(f["name"]), &n) //nolint:errcheck
+			t, dd := diffTerm(state.merged[n], f)
+			items = append(items, cqPair(cqZ(int64(in.name(n))), t))
+			d[n] = dd
+		}
+		return "EList", cqApp("RList", cqList(items)), d, nil
+	default:
+		esc := "/" + strings.ReplaceAll(url.PathEscape(name), "%2F", "/")
+		st, b, err := tg.req(http.MethodGet, "/v3/config/paths/get"+esc, "")
+		if err != nil {
+			return "", "", nil, fmt.Errorf("GET paths/get: %v", err)
+		}
+		et := cqApp("EGet", cqZ(int64(in.name(name))))
+		if st != 200 {
+			return et, "RMissing", map[string]any{"status": st}, nil
+		}
+		ch, rem := vC12Diff(state.merged[name], vC12FieldsOfJSON(b))
+		return et, cqApp("RDiff", in.fmap(ch), in.keys(rem)), map[string]any{"differsFromRunning": ch, "missing": rem}, nil
 	}
-	v.d = vC12FieldsOfJSON(b)
-	st, b, err = tg.req(http.MethodGet, "/v3/config/paths/list?itemsPerPage=1000", "")
-	if err != nil || st != 200 {
-		return v, fmt.Errorf("GET paths/list: %d %v", st, err)
-	}
-	var list struct {
-		Items []json.RawMessage `json:"items"`
-	}
-	if err = json.Unmarshal(b, &list); err != nil {
-		return v, err
-	}
-	v.merged = map[string]vC12Fields{}
-	for _, it := range list.Items {
-		f := vC12FieldsOfJSON(it)
-		var n string
-		json.Unmarshal([]byte(f["name"]), &n) //nolint:errcheck
-		v.merged[n] = f
-	}
-	// the optional paths are read after the GETs, so that they are not older than what the GETs returned
-	v.cells = vC12ReadSnapshot(tg.p.APIConfigSnapshot()).cells
-	return v, nil
 }
 
 func vC12FreePort() int {
@@ -627,11 +671,24 @@ func vC12FreePort() int {
 	return l.Addr().(*net.TCPAddr).Port
 }
 
-func vC12Start(t *testing.T, dir string, withAPI bool) *vC12Target {
+// internal users with credentials: the user without password that the driver's own API requests are admitted as, and
+// users with a plain, a sha256 and an argon2 password
+const vC12UsersJSON = `[{"user":"any","pass":"","ips":["127.0.0.1","::1"],"permissions":[{"action":"api"},{"action":"metrics"},{"action":"pprof"}]},` +
+	`{"user":"admin","pass":"adminpass","ips":[],"permissions":[{"action":"publish"},{"action":"read"},{"action":"playback"}]},` +
+	`{"user":"viewer","pass":"sha256:j1tsRqDEw9xvq/D7/9tMx6Jh/jMhk3UfjwIB2f1zgMo=","ips":["192.168.0.0/16"],"permissions":[{"action":"read","path":"cam1"}]},` +
+	`{"user":"hashed","pass":"argon2:$argon2id$v=19$m=4096,t=3,p=1$MTIzNDU2Nzg$Ux/LWeTgJQPyfMMJo1myR64+o8rALHoPmlE1i/TR+58","ips":[],"permissions":[{"action":"read"}]}]`
+
+// variant: "users" (authInternalUsers with passwords), "legacy" (deprecated per-path credentials, default users), "plain"
+func vC12Start(t *testing.T, dir string, withAPI bool, variant string) *vC12Target {
 	port := vC12FreePort()
-	api := "no"
-	if withAPI {
-		api = "yes"
+	api := "yes" // every history reads through the real GET handlers; withAPI = the edits go over HTTP too
+	extra, cam1, defaults := "", "", ""
+	switch variant {
+	case "users":
+		extra = "authInternalUsers: " + vC12UsersJSON + "\n"
+	case "legacy":
+		cam1 = "\n    readUser: camreader\n    readPass: camreadpass\n    publishUser: campub\n    publishPass: sha256:j1tsRqDEw9xvq/D7/9tMx6Jh/jMhk3UfjwIB2f1zgMo="
+		defaults = "pathDefaults:\n  readUser: defreader\n  readPass: defreadpass\n"
 	}
 	yml := fmt.Sprintf(`logLevel: error
 api: %s
@@ -645,14 +702,14 @@ hls: no
 webrtc: no
 srt: no
 moq: no
-paths:
-  cam1:
+%s%spaths:
+  cam1:%s
   "~^live/(.+)$":
     record: no
     maxReaders: 3
   all_others:
     sourceOnDemandStartTimeout: 15s
-`, api, port)
+`, api, port, extra, defaults, cam1)
 	cf := filepath.Join(dir, fmt.Sprintf("mediamtx_%d.yml", port))
 	if err := os.WriteFile(cf, []byte(yml), 0o644); err != nil {
 		t.Fatal(err)
@@ -663,6 +720,19 @@ paths:
 	}
 	return &vC12Target{p: p, http: withAPI, base: fmt.Sprintf("http://127.0.0.1:%d", port), confFile: cf, port: port,
 		client: &http.Client{Timeout: 30 * time.Second, Transport: &http.Transport{DisableKeepAlives: true}}}
+}
+
+func vC12Class(class string, fileHist, brokenEnd, startFail bool) string {
+	if fileHist {
+		class += "+file"
+		if brokenEnd {
+			class += "+broken"
+		}
+		if startFail {
+			class += "+startfail"
+		}
+	}
+	return class
 }
 
 func TestVerifC12(t *testing.T) {
@@ -686,10 +756,22 @@ func TestVerifC12(t *testing.T) {
 
 	for h := 0; h < n; h++ {
 		useHTTP := h < nHTTP
-		tg := vC12Start(t, dir, useHTTP)
+		// the initial configuration: internal users with plain / sha256 / argon2 passwords (4 of 8), deprecated per-path
+		// credentials with the default users (2 of 8, one of them with file reloads: Validate rejects every later edit of
+		// such a server until a file replaces the configuration, see the notes), or no credentials at all (2 of 8)
+		variant := "users"
+		switch h % 8 {
+		case 2, 6:
+			variant = "plain"
+		case 3, 4:
+			variant = "legacy"
+		}
+		tg := vC12Start(t, dir, useHTTP, variant)
 		g := &vC12Gen{r: r, http: useHTTP}
 		in := &vC12Intern{ids: map[string]int{}}
 		nameFid := in.id("name")
+		credIDs := cqList([]string{cqZ(int64(in.id("authInternalUsers"))), cqZ(int64(in.id("publishPass"))),
+			cqZ(int64(in.id("readPass")))})
 
 		prev, err := tg.read()
 		if err != nil {
@@ -697,6 +779,7 @@ func TestVerifC12(t *testing.T) {
 			t.Fatalf("initial read: %v", err)
 		}
 		initPaths, initPathsD := in.paths(prev)
+		prev0Users := prev.g["authInternalUsers"]
 		initTerm := []string{in.fmap(prev.g), in.fmap(prev.d), initPaths}
 		var stepTerms []string
 		var stepDescs []any
@@ -722,12 +805,77 @@ func TestVerifC12(t *testing.T) {
 				startFail = true
 			}
 		}
-		wrap := func(term string) string {
-			if fileHist {
-				return cqApp("SApi", term)
+		wrap := func(term string) string { return cqApp("SApi", term) }
+
+		// GETs through the real handlers between the steps: every endpoint; after each one the running configuration is
+		// read again in-package (credentials included) and must be what it was
+		lastPaths := initPaths
+		readErr := error(nil)
+		doReads := func(always bool) {
+			var eps []string
+			if always {
+				eps = []string{"global", "defaults", "list"}
+				if r.Chance(1, 2) {
+					eps = append(eps, "get")
+				}
+			} else {
+				for k := r.Intn(4); k > 0; k-- {
+					eps = append(eps, vPick(r, []string{"global", "global", "defaults", "list", "get"}))
+				}
 			}
-			return term
+			if len(eps) == 0 {
+				return
+			}
+			tg.settle()
+			for _, ep := range eps {
+				name := ""
+				if ep == "get" {
+					existing := make([]string, 0, len(prev.merged))
+					for nm := range prev.merged {
+						existing = append(existing, nm)
+					}
+					sort.Strings(existing)
+					if len(existing) > 0 && r.Chance(2, 3) {
+						name = vPick(r, existing)
+					} else {
+						name = vPick(r, []string{"cam1", "cam2", "cam3", "a/b", "live/x", "all_others", "~^live/(.+)$", "nosuch", "bad name!"})
+					}
+				}
+				et, rt, rd, err := tg.get(in, ep, name, prev)
+				if err != nil {
+					readErr = err
+					return
+				}
+				cur, _ := tg.read()
+				gch, grem := vC12Diff(prev.g, cur.g)
+				dch, drem := vC12Diff(prev.d, cur.d)
+				pathsTerm, pathsD := in.paths(cur)
+				pt := "None"
+				if pathsTerm != lastPaths {
+					pt = cqApp("Some", pathsTerm)
+				}
+				stepTerms = append(stepTerms, cqApp("SRead", cqApp("mkRead", et, rt, in.fmap(gch), in.keys(grem),
+					in.fmap(dch), in.keys(drem), pt)))
+				sd := map[string]any{"op": "GET " + ep, "answer": rd}
+				if name != "" {
+					sd["name"] = name
+				}
+				if len(gch)+len(grem) > 0 {
+					sd["runningGlobalChangedByTheRead"] = gch
+				}
+				if len(dch)+len(drem) > 0 {
+					sd["runningPathDefaultsChangedByTheRead"] = dch
+				}
+				if pt != "None" {
+					sd["runningPathsAfterTheRead"] = pathsD
+				}
+				stepDescs = append(stepDescs, sd)
+				stepClasses["read:"+ep]++
+				prev = cur
+				lastPaths = pathsTerm
+			}
 		}
+		doReads(useHTTP || r.Chance(1, 2))
 
 		for s := 0; s < steps; s++ {
 			if fileHist && (filePos[s] || (brokenEnd && s == steps-1)) {
@@ -791,6 +939,11 @@ func TestVerifC12(t *testing.T) {
 				stepDescs = append(stepDescs, sd)
 				stepClasses["file:reloaded"]++
 				prev = cur
+				lastPaths = opT
+				doReads(useHTTP)
+				if readErr != nil {
+					break
+				}
 				continue
 			}
 			var op vC12Op
@@ -938,15 +1091,23 @@ func TestVerifC12(t *testing.T) {
 				nRej++
 			}
 			prev = cur
+			lastPaths = pathsTerm
 			if useHTTP && outcome == vC12OK {
 				// let the reload that follows the answer finish before the next request: a request that reaches an API
 				// server which is being shut down by that reload is only served once the shutdown has timed out
-				for i := 0; i < 500 && tg.p.conf.Load() != tg.p.APIConfigSnapshot(); i++ {
-					time.Sleep(10 * time.Millisecond)
-				}
+				tg.settle()
+			}
+			doReads(useHTTP)
+			if readErr != nil {
+				break
 			}
 		}
 		tg.p.Close()
+		if readErr != nil {
+			t.Logf("history %d: %v", h, readErr)
+			stepDescs = append(stepDescs, map[string]any{"op": "GET", "outcome": "no answer", "error": readErr.Error()})
+			unanswered = true
+		}
 		if unanswered {
 			out.Case("(Unanswered Http)", map[string]any{"mode": "http", "initialPaths": initPathsD, "steps": stepDescs},
 				"http-unanswered", true)
@@ -961,6 +1122,17 @@ func TestVerifC12(t *testing.T) {
 		if notReloaded {
 			out.Case(cqApp("NotReloaded", mode), map[string]any{"mode": class, "initialPaths": initPathsD, "steps": stepDescs},
 				class+"-file-not-reloaded", true)
+			continue
+		}
+		if variant != "plain" {
+			class += "+" + variant
+		}
+		if true {
+			out.Case(cqApp("ReadHistory", mode, cqZ(int64(nameFid)), credIDs, initTerm[0], initTerm[1], initTerm[2], cqList(stepTerms)),
+				map[string]any{"mode": class + map[bool]string{true: "+file", false: ""}[fileHist], "initialPaths": initPathsD,
+					"initialInternalUsers": prev0Users, "steps": stepDescs},
+				vC12Class(class, fileHist, brokenEnd, startFail), nOK > 0 && nRej > 0)
+			out.w.Flush()
 			continue
 		}
 		if fileHist {
